@@ -639,6 +639,12 @@ func diffResults(a, b *abci.ResponseFinalizeBlock) string {
 		}
 		if ex, ey := eventsString(x.Events), eventsString(y.Events); ex != ey {
 			fmt.Fprintf(&sb, "\n  tx %d: events differ", i)
+			for j := 0; j < len(x.Events) && j < len(y.Events); j++ {
+				if a, b := eventsString(x.Events[j:j+1]), eventsString(y.Events[j:j+1]); a != b {
+					fmt.Fprintf(&sb, " (first difference at event %d: %s | %s)", j, truncate(a, 400), truncate(b, 400))
+					break
+				}
+			}
 		}
 	}
 	// begin/end-block events are not transaction results and are not compared (the property speaks of app hash and tx results)
